@@ -92,6 +92,7 @@ class Ctx:
         self.body, self.D, self.params = body, D, params
         self.tok_iters, self.opt_toks = tok_iters, opt_toks
         self.caller, self.fname = caller, fname      # for a helper: the ctx of `fn lint`, the helper's name
+        self.word_guards = []                        # phase 7: with_len(1) expressions of this body guarded by kind.is_word()
 
     # ---- bindings ----
     def binding(self, V, pos):
@@ -384,6 +385,27 @@ class Ctx:
             return "ROtherRoot"
         return roots[0]
 
+    # ---- phase 7: the guard `if !T.kind.is_word() { continue; }` between the binding of T and the use at `pos` ----
+    def word_guarded(self, tokvar, pos):
+        g = None
+        for m in re.finditer(r"\bif\s*!\s*" + re.escape(tokvar) + r"\.kind\.is_word\(\)\s*\{\s*continue\s*;\s*\}", self.body[:pos]):
+            g = m
+        if g is None:
+            return False
+        between = self.body[g.end():pos]
+        # T is not bound again after the guard, and the use is in the guard's block or nested inside it
+        if re.search(r"(\blet\s+(mut\s+)?|\bSome\(\s*|\bfor\s+|\|\s*)" + re.escape(tokvar) + r"\b", between):
+            return False
+        depth = 0
+        for ch in between:
+            if ch == "{":
+                depth += 1
+            elif ch == "}":
+                depth -= 1
+                if depth < 0:
+                    return False
+        return True
+
     # ---- span expressions ----
     def classify(self, expr, pos, depth=0):
         """-> [(dsrc, root, text)]"""
@@ -406,6 +428,10 @@ class Ctx:
             return [("DSuffix", self.tok_root(m.group(1), pos), expr)]
         m = re.fullmatch(TOKX + r"\.span\.with_len\(1\)", expr)
         if m:
+            # phase 7: is the construction dominated by `if !T.kind.is_word() { continue; }` (recorded only for a direct
+            # field expression in the body that binds T; anything else stays unguarded and the table theorem fails)
+            if depth == 0 and re.fullmatch(r"\w+", m.group(1)) and self.word_guarded(m.group(1), pos):
+                self.word_guards.append(expr)
             return [("DWithLen1", self.tok_root(m.group(1), pos), expr)]
         m = re.fullmatch(r"(\w+)(?:\[[^\[\]]*\.\.[^\[\]]*\])?\.span\(\)(?:\?|\.unwrap\(\))", expr)
         if m:
@@ -416,7 +442,11 @@ class Ctx:
         return [("DUnknown", "ROtherRoot", expr)]
 
 
+WORD_GUARDS = {}     # phase 7: rule -> [with_len(1) expressions of fn lint guarded by `if !T.kind.is_word() { continue; }`]
+
+
 def struct_rule_bodies(repo):
+    WORD_GUARDS.clear()
     d = os.path.join(repo, "harper-core", "src", "linting")
     tok_iters, opt_toks = api(repo)
     rows = []
@@ -468,9 +498,64 @@ def struct_rule_bodies(repo):
         if not sites:
             raise RuntimeError("%s: impl Linter for %s constructs no Lint in its file" % (f, im.group(1)))
         rows.append((f, im.group(1), sites))
+        WORD_GUARDS[im.group(1)] = list(main.word_guards)
     if len(rows) < 15:
         raise RuntimeError("c03structroots: only %d `impl Linter for` found" % len(rows))
     return rows
+
+
+def whole_document_nonrow_registrations(repo, rows):
+    """phase 7: the rules new_curated registers as WHOLE-DOCUMENT rules (`add`) that are not `impl Linter for` rows:
+    -> [(registered name, [PatternLinter types whose blanket impl makes the lints])]; raises on any other kind"""
+    d = os.path.join(repo, "harper-core", "src", "linting")
+    norm = lambda t: re.sub(r"\s+", "", t)
+    rd = lambda *p: strip_comments(strip_tests(open(os.path.join(d, *p), encoding="utf-8").read()))
+    lg = rd("lint_group.rs")
+    if "macro_rules!insert_struct_rule{($rule:ident,$default_config:expr)=>{out.add(stringify!($rule),Box::new($rule::default()));" not in norm(lg):
+        raise RuntimeError("lint_group.rs: insert_struct_rule! of unknown shape")
+    pl = norm(rd("pattern_linter.rs"))
+    if ("impl<L>LinterforLwhereL:PatternLinter,{fnlint(&mutself,document:&Document)->Vec<Lint>{letmutlints=Vec::new();"
+            "letsource=document.get_source();forchunkindocument.iter_chunks(){lints.extend(run_on_chunk(self,chunk,source));}lints}") not in pl:
+        raise RuntimeError("pattern_linter.rs: the blanket `impl Linter for L: PatternLinter` has an unknown shape")
+    ml = norm(rd("merge_linters.rs"))
+    if ("fnlint(&mutself,document:&Document)->Vec<Lint>{letmutlints=Vec::new();$(lints.extend(self.[<$linter:snake>].lint(document));)*"
+            "remove_overlaps(&mutlints);lints}") not in ml:
+        raise RuntimeError("merge_linters.rs: merge_linters! has an unknown shape")
+    pats, merges = set(), {}
+    for root, _, files in os.walk(d):
+        for f in sorted(files):
+            if not f.endswith(".rs"):
+                continue
+            code = strip_comments(strip_tests(open(os.path.join(root, f), encoding="utf-8").read()))
+            pats.update(re.findall(r"\bimpl(?:<[^>]*>)?\s+PatternLinter\s+for\s+(\w+)", code))
+            if f != "merge_linters.rs":
+                for m in re.finditer(r"\bmerge_linters!\s*[\(\{]\s*(\w+)\s*=>\s*([\w\s,]+?)\s*=>", code):
+                    merges[m.group(1)] = [x.strip() for x in m.group(2).split(",") if x.strip()]
+    rowset = {n for _, n, _ in rows}
+    names = re.findall(r"\binsert_struct_rule!\(\s*(\w+)\s*,", lg) + re.findall(r'\bout\.add\(\s*"(\w+)"', lg)
+    if len(re.findall(r"\.add\(", lg)) != len(re.findall(r'\bout\.add\(\s*(?:"\w+"|stringify!\(\$rule\))', lg)):
+        raise RuntimeError("lint_group.rs: an `.add(` registration of unknown shape")
+    out = []
+    for n in names:
+        if n in rowset:
+            continue
+        if n in pats:
+            out.append((n, [n]))
+        elif n in merges and merges[n] and all(x in pats for x in merges[n]):
+            out.append((n, merges[n]))
+        else:
+            raise RuntimeError("lint_group.rs: whole-document rule %s is neither an `impl Linter for` row, a PatternLinter nor a merge of PatternLinters" % n)
+    # groups merged into the curated group: their `.add(` registrations (add_pattern_linter ones go through the chunk cache: c03roots.py)
+    for m in re.finditer(r"\bout\.merge_from\(\s*&mut\s+(\w+)::lint_group\(", lg):
+        g = rd(m.group(1) + ".rs")
+        adds = re.findall(r"\.add\(", g)
+        if not adds:
+            continue
+        cc = norm(g)
+        if len(adds) != 1 or "$group.add($name,Box::new(MapPhraseLinter::new_closed_compound($bad,$good)),);" not in cc or "MapPhraseLinter" not in pats:
+            raise RuntimeError("%s.rs: an `.add(` registration of unknown shape" % m.group(1))
+        out.append((m.group(1) + "::lint_group", ["MapPhraseLinter"]))
+    return out
 
 
 def cp(s):
@@ -492,6 +577,20 @@ def generate(repo):
     out.append("(* the same rows for the extracted driver: struct name as code points, the sources *)")
     out.append("Definition struct_rule_srcs : list (list nat * list dsrc) := [")
     out.append(";\n".join("  (%s, [%s])" % (cp(n), "; ".join(c for c, r, t in sites)) for f, n, sites in rows))
+    out.append("].")
+    out.append("")
+    regs = whole_document_nonrow_registrations(repo, rows)
+    out.append("(* phase 7: the whole-document registrations of LintGroup::new_curated (insert_struct_rule! / out.add / `.add(` of a merged group)")
+    out.append("   that are NOT rows above: name, and the PatternLinter types whose blanket `impl Linter` makes the lints (one = registered")
+    out.append("   directly; several = merge_linters!); the shapes of the blanket impl and of merge_linters! are checked by the generator *)")
+    out.append("Definition whole_document_nonrow_registrations : list (string * list string) := [")
+    out.append(";\n".join('  ("%s", [%s])' % (n, "; ".join('"%s"' % x for x in subs)) for n, subs in regs))
+    out.append("].")
+    out.append("")
+    out.append("(* phase 7: (rule, with_len(1) expression) for every such Lint span of `fn lint` that is dominated by")
+    out.append("   `if !T.kind.is_word() { continue; }` on its token T (T not re-bound in between, use inside the guard's block) *)")
+    out.append("Definition struct_word_guards : list (string * string) := [")
+    out.append(";\n".join('  ("%s", "%s")' % (n, q(e)[:150]) for f, n, sites in rows for e in WORD_GUARDS.get(n, [])))
     out.append("].")
     return "\n".join(out) + "\n"
 
